@@ -257,6 +257,83 @@ func builderPairing(c *Ctx, rule string, only ...string) {
 				bad = append(bad, "key "+key+" is emitted but not in the alias table")
 			}
 		}
+		// (3b) a key whose emission is not under a presence test / builder flag is written on every path of a present node
+		{
+			presence := func(gd string) bool {
+				return sanctionedEmissionGuard(gd, param) && gd != param+".IgnoreCase" && gd != "!("+param+".IgnoreCase)"
+			}
+			keyOf := func(ce *ast.CallExpr) string {
+				if cn := callName(ce); (cn != "b.writelnf" && cn != "b.writef") || len(ce.Args) == 0 {
+					return ""
+				}
+				tv, ok := info.Types[ce.Args[0]]
+				if !ok || tv.Value == nil || tv.Value.Kind() != constant.String {
+					return ""
+				}
+				f := strings.TrimSpace(constant.StringVal(tv.Value))
+				if i := strings.Index(f, ":"); i > 0 && !strings.ContainsAny(f[:i], " %&{") {
+					return f[:i]
+				}
+				return ""
+			}
+			optional := map[string]bool{}
+			seen := map[string]bool{}
+			for _, ce := range callsIn(fd.Body) {
+				k := keyOf(ce)
+				if k == "" {
+					continue
+				}
+				gs := guardsOf(fd.Body, ce.Pos())
+				opt := len(gs) > 0
+				for _, gd := range gs {
+					if !presence(gd) {
+						opt = false
+					}
+				}
+				if !seen[k] {
+					optional[k] = opt
+				} else {
+					optional[k] = optional[k] && opt
+				}
+				seen[k] = true
+			}
+			nilCond := param + "==nil"
+			if fn == "writeRule" {
+				nilCond = param + "==nil||" + param + ".Name==nil"
+			}
+			for _, p := range enumPaths(fd.Body) {
+				if p.has("+", nilCond) {
+					continue
+				}
+				on := map[string]bool{}
+				for _, e := range p {
+					if ce, ok := e.Node.(*ast.CallExpr); ok && e.Kind == "call" {
+						if k := keyOf(ce); k != "" {
+							on[k] = true
+						}
+					}
+				}
+				for k := range seen {
+					if !optional[k] && !on[k] {
+						bad = append(bad, "key "+k+" is not written on the path ["+strings.Join(p.guards(), " ")+"]: the runtime node keeps the zero value there")
+					}
+				}
+			}
+			// the display form of an ignore-case literal carries the i suffix
+			if fn == "writeLitMatcher" {
+				var defs []string
+				ast.Inspect(fd.Body, func(n ast.Node) bool {
+					if as, ok := n.(*ast.AssignStmt); ok && len(as.Lhs) == 1 && nospace(as.Lhs[0]) == "ignoreCaseFlag" {
+						defs = append(defs, nospace(as.Rhs[0])+"["+strings.Join(guardsOf(fd.Body, as.Pos()), ";")+"]")
+					}
+					return true
+				})
+				sort.Strings(defs)
+				if got := strings.Join(defs, " "); got != `""[] "i"[`+param+`.IgnoreCase]` {
+					bad = append(bad, "ignoreCaseFlag is defined as "+got+`, expected "" and, under `+param+`.IgnoreCase, "i": the expected-set entry of the literal would not show its flag`)
+				}
+			}
+		}
 		if fn == "writeRule" {
 			// the two left-recursion flags are written for every rule exactly when the grammar has left recursion
 			for _, ce := range callsIn(fd.Body) {
